@@ -9,7 +9,7 @@ early exits, several exported functions in varying order.
 All loops terminate for every input by construction.
 """
 
-STRUCT_NAMES = ["S", "T", "particle", "Light", "Vtx"]
+STRUCT_NAMES = ["S", "T", "particle"]
 SCALARS = ["int", "int", "float", "float", "uint"]
 VECS = ["float2", "float3", "float4", "int2", "int3", "int4"]
 
@@ -152,7 +152,7 @@ class Gen:
         self.structs = {}
         out = []
         used_fields = set()
-        for sn in r.sample(STRUCT_NAMES, r.choice([0, 1, 1, 2])):
+        for sn in r.sample(STRUCT_NAMES, r.choice([0, 1, 1, 2, 2])):
             fields = []
             for _ in range(r.randint(1, 4)):
                 fn = r.choice("abcdexyzwuvmnpq") + r.choice(["", "0", "1", "_"])
